@@ -174,7 +174,51 @@ def _dict_fields(d):
     return [{"name": k, "value": str(v)} for k, v in d.items()]
 
 
-def reference_record(fcp):
+def declared_of(fcp):
+    """The extension fields as declared in the source: taken right after parsing, before anything else touches the tree."""
+    return [(dict(i.fields), [dict(g.fields) for g in i.signals]) for i in fcp.impls]
+
+
+def same_object_history(fcp):
+    """What a tool does with a parsed schema before it asks for its reflection: packed layouts of every binding (both
+    unroll settings) and verification with every plug-in's checks - on this very FcpV2 object, concretely."""
+    from fcp.encoding import make_encoder, PackedEncoderContext
+    from fcp.verifier import make_general_verifier
+    import importlib
+
+    for unroll in (True, False):
+        try:
+            enc = make_encoder("packed", fcp, PackedEncoderContext().with_unroll_arrays(unroll))
+        except Exception:
+            continue
+        for impl in fcp.impls:
+            try:
+                enc.generate(impl)
+            except Exception:
+                pass
+    for plug in (None, "fcp_dbc", "fcp_can_c"):
+        try:
+            v = make_general_verifier()
+            if plug:
+                importlib.import_module(plug).Generator().register_checks(v)
+            v.verify(fcp)
+        except Exception:
+            pass
+
+
+def reference_record(fcp, declared=None):
+    if declared is not None:
+        class _I:       # a view of the bindings whose extension fields are the declared ones
+            def __init__(self, i, d):
+                self.name, self.protocol, self.type, self.meta, self.fields = i.name, i.protocol, i.type, i.meta, d[0]
+                self.signals = [type("G", (), {"name": g.name, "meta": g.meta, "fields": gf})() for g, gf in zip(i.signals, d[1])]
+        impls = [_I(i, d) for i, d in zip(fcp.impls, declared)]
+        if len(declared) != len(fcp.impls) or any(len(d[1]) != len(i.signals) for i, d in zip(fcp.impls, declared)):
+            impls = None
+    else:
+        impls = list(fcp.impls)
+    if impls is None:
+        return {"error": "bindings or signal blocks appeared/disappeared since parsing"}
     major, minor = fcp.version.split(".")
     return {
         "tag": [0x66, 0x63, 0x70],
@@ -188,7 +232,7 @@ def reference_record(fcp):
                   for e in fcp.enums],
         "impls": [{"name": i.name, "protocol": i.protocol, "type": i.type, "fields": _dict_fields(i.fields),
                    "signals": [{"name": g.name, "fields": _dict_fields(g.fields), "meta": _meta(g.meta)}
-                               for g in i.signals], "meta": _meta(i.meta)} for i in fcp.impls],
+                               for g in i.signals], "meta": _meta(i.meta)} for i in impls],
         "services": [{"name": s.name, "id": s.id, "meta": _meta(s.meta),
                       "methods": [{"name": m.name, "id": m.id, "input": m.input, "output": m.output,
                                    "meta": _meta(m.meta)} for m in s.methods]} for s in fcp.services],
@@ -214,6 +258,8 @@ def c12_case(args):
     from ..prime import prime
     prime(COLLIDING, ("serde", "layout"))
     fcp = parse(TEMPLATES[tname])
+    declared = declared_of(fcp)
+    same_object_history(fcp)
     P = Patcher(strlen=strlen)
     P.patch(fcp)
     feats = {"desc": f"{tname}/strlen{strlen}", "template": tname, "has_signed": True}
@@ -247,7 +293,7 @@ def c12_case(args):
                 continue
             (first, rec), dec = out
             try:
-                exp = reference_record(fcp)
+                exp = reference_record(fcp, declared)
                 faithful = z3.And(refspec.eq_value(rsch, T, first, exp), refspec.eq_value(rsch, T, rec, exp))
             except Exception as e:
                 faithful = z3.BoolVal(False)
